@@ -1,5 +1,5 @@
 """C13 - gossip packets fit the size limit, decode to prefixes, survive hostile input."""
-import random
+import random, re
 from props.gossip_common import *
 from props import wire
 
@@ -226,16 +226,19 @@ def world_monitor(case, out):
                 kind, hdr, body = wire.decode_packet(b)
             except Exception as e:
                 return {"step": i, "why": "emitted packet does not decode: %r" % (e,), "sig": "emit-decode"}
-            if kind == "delta":
-                for h, es in body:
-                    vs = [e[b"version"] for e in es]
-                    if any(x >= y for x, y in zip(vs, vs[1:])):
-                        return {"step": i, "why": "delta entries of a node not in strictly increasing version order", "sig": "order"}
-                    if len(es) > h[b"entries"]:
-                        return {"step": i, "why": "more entries than advertised", "sig": "order"}
-                for (h, es) in body[:-1]:
-                    if len(es) != h[b"entries"]:
-                        return {"step": i, "why": "a node before the cut is incomplete", "sig": "order"}
+            try:
+                if kind == "delta":
+                    for h, es in body:
+                        vs = [e[b"version"] for e in es]
+                        if any(x >= y for x, y in zip(vs, vs[1:])):
+                            return {"step": i, "why": "delta entries of a node not in strictly increasing version order", "sig": "order"}
+                        if len(es) > h[b"entries"]:
+                            return {"step": i, "why": "more entries than advertised", "sig": "order"}
+                    for (h, es) in body[:-1]:
+                        if len(es) != h[b"entries"]:
+                            return {"step": i, "why": "a node before the cut is incomplete", "sig": "order"}
+            except (KeyError, TypeError, IndexError) as e:
+                return {"step": i, "why": "emitted delta is not a sequence of node headers each followed by whole entries (%r)" % (e,), "sig": "emit-decode"}
         for v in ob["views"]:
             if v["id"] == own.get(v["n"]):
                 cur = (v["ver"], v["entries"]) if v["present"] else None
@@ -336,13 +339,17 @@ def run(ctx):
         else:
             b = mutate(rng, bytes.fromhex(rng.choice(harvested))) if harvested and rng.random() < 0.7 else bytes(rng.randrange(256) for _ in range(rng.randint(0, 100)))
             raws.append({"id": "r%d" % i, "bytes": b.hex(), "stream": False})
-    out, logtxt = run_harness(binary, {"mode": "hostile", "raw": raws}, wd, tag="hostile")
-    if out is None:
-        violations.append({"what": "hostile run crashed the harness process (panic outside a handler goroutine or fatal error): " + logtxt[-600:], "found_input": False,
-                           "replay_obj": {"broken": "corr:C13:gossip_h:hostile", "log": logtxt[-4000:], "raws": raws[:50]}})
-        routs = []
-    else:
-        routs = out["hostile"]
+    def run_raws(rs):
+        """a crash of the whole process is bisected down to the datagram that causes it"""
+        o, lg = run_harness(binary, {"mode": "hostile", "raw": rs}, wd, tag="hostile", timeout=600)
+        if o is not None:
+            return o["hostile"]
+        if len(rs) == 1:
+            m = re.search(r"(fatal error:[^\n]*|panic:[^\n]*|test timed out[^\n]*)", lg)
+            return [{"panic": "process died: " + (m.group(1) if m else lg[-300:]), "timeout": False, "own_same": True, "err": "crash"}]
+        mid = len(rs) // 2
+        return run_raws(rs[:mid]) + run_raws(rs[mid:])
+    routs = run_raws(raws)
     nacc = 0
     for r, o in zip(raws, routs):
         bad = None
